@@ -208,6 +208,11 @@ class Ctx:
         with open(os.path.join(LEAN, ".lake", "verif.lock"), "w") as lk:
             fcntl.flock(lk, fcntl.LOCK_EX)
             rc, out = sh(["lake", "build"] + targets, cwd=LEAN, timeout=3600)
+            if rc != 0:
+                # a build started by hand outside this lock can collide with ours; a proof that is
+                # really broken fails again
+                time.sleep(5)
+                rc, out = sh(["lake", "build"] + targets, cwd=LEAN, timeout=3600)
         return rc, out
 
     def lean_run(self, text, name="Tmp", timeout=1800):
